@@ -570,6 +570,23 @@ impl RefWorld {
       }
       Op::MapToAny | Op::ObserveOnDefault | Op::SubscribeOnDefault | Op::MatDemat | Op::Timestamp | Op::RefCount | Op::ReplayConn | Op::Defer
       | Op::WindowFlat(_) | Op::GroupByParityFlat => self.emit(id, ev),
+      Op::GroupByParityFlatResume => match ev {
+        N(x) => {
+          let par = D::I(x.i().rem_euclid(2));
+          if !self.nodes[id].buf.contains(&par) {
+            self.nodes[id].buf.push(par);
+          }
+          self.emit(id, N(x))
+        }
+        E(e) => {
+          // every open group gets the error first and answers with its fallback item
+          for _ in 0..self.nodes[id].buf.len() {
+            self.emit(id, N(D::I(9)));
+          }
+          self.emit(id, E(e))
+        }
+        o => self.emit(id, o),
+      },
       Op::DematInBand(c, e) => match ev {
         // emit() of a terminal cancels the input
         N(D::I(k)) if k == c => self.emit(id, C),
